@@ -316,11 +316,55 @@ func init() {
 		c.Feed(chunksTok(in[5])...)
 		if in[4] == "c" {
 			c.PeerClose()
+		} else if in[4] == "r" {
+			c.PeerReset()
 		}
 		mc := newClientOn(in[0], c, uint8(unhx(in[1])), atoi(in[2]), atoi(in[3]))
 		total := c.Pending()
 		res := callOp(mc, in[6:])
 		return res + " " + writesStr(c.WriteLog()) + " " + itoa(total-c.Pending())
+	}
+	// ch: client history on ONE client and ONE connection (unread peer bytes stay queued
+	// for the next call):  fr unit e w  { ; call end chunks op... | ; setunit u | ; setenc e w }*
+	// -> per step "result writes consumed" joined by ";"
+	executors["ch"] = func(in []string) string {
+		c := sconn.New(true)
+		mc := newClientOn(in[0], c, uint8(unhx(in[1])), atoi(in[2]), atoi(in[3]))
+		var outs []string
+		var step []string
+		flush := func() {
+			if len(step) == 0 {
+				return
+			}
+			switch step[0] {
+			case "call":
+				c.Feed(chunksTok(step[2])...)
+				if step[1] == "c" {
+					c.PeerClose()
+				} else if step[1] == "r" {
+					c.PeerReset()
+				}
+				before := c.Pending()
+				nw := len(c.WriteLog())
+				res := callOp(mc, step[3:])
+				outs = append(outs, res+" "+writesStr(c.WriteLog()[nw:])+" "+itoa(before-c.Pending()))
+			case "setunit":
+				mc.SetUnitId(uint8(unhx(step[1])))
+				outs = append(outs, "ok")
+			case "setenc":
+				outs = append(outs, resStr("u", mc.SetEncoding(modbus.Endianness(unhx(step[1])), modbus.WordOrder(unhx(step[2])))))
+			}
+			step = nil
+		}
+		for _, t := range in[4:] {
+			if t == ";" {
+				flush()
+			} else {
+				step = append(step, t)
+			}
+		}
+		flush()
+		return strings.Join(outs, ";")
 	}
 	// srv: end chunks script -> events
 	executors["srv"] = func(in []string) string { return runServerSession(in[0], chunksTok(in[1]), in[2]) }
@@ -464,6 +508,8 @@ func runServerSession(end string, chunks [][]byte, script string) (out string) {
 	c.Feed(chunks...)
 	if end == "c" {
 		c.PeerClose()
+	} else if end == "r" {
+		c.PeerReset()
 	}
 	c.OnWrite = func(_ *sconn.Conn, b []byte) {
 		h.mu.Lock()
